@@ -1754,19 +1754,34 @@ pub mod gen {
         let mut ops = vec![];
         let mut maxlen = 1usize;
         for _ in 0..ntransfers {
-            let lab = label(rng, false);
+            let lab0 = label(rng, false);
+            // all label kinds: one transfer in ten passes the explicit re-use marker (resolved by the small complete
+            // packet sent just before it, which carries the label)
+            let explicit_reuse = lab0.is_addr() && rng.chance(1, 10);
+            let lab = if explicit_reuse { Lab::ReUse } else { lab0 };
             let l = lab.len();
             let big = rng.chance(1, 50);
-            let len = if big { rng.usize_in(60_000, 65533 - l) } else { len_any(rng, l).min(if rng.chance(9, 10) { 9000 } else { 65533 - l }) };
+            let len = if big {
+                rng.usize_in(60_000, 65533 - l)
+            } else if rng.chance(1, 40) {
+                // the middle of the range
+                rng.usize_in(9_000, 60_000)
+            } else {
+                len_any(rng, l).min(if rng.chance(9, 10) { 9000 } else { 65533 - l })
+            };
             maxlen = maxlen.max(len);
             let fid = rng.below(256) as u8;
             let seed = rng.next();
             let pt = ptype(rng);
             // optionally make the first fragment's label a substituted re-use: send a small complete packet first
-            if lab.is_addr() && rng.chance(1, 4) {
-                ops.push(submit(rng.usize_in(0, 8), rng.next(), pt, &lab, 0, 4097, &[]));
+            if explicit_reuse || (lab.is_addr() && rng.chance(1, 4)) {
+                ops.push(submit(rng.usize_in(0, 8), rng.next(), pt, &lab0, 0, 4097, &[]));
             }
-            // first call
+            // first call; sometimes preceded by the same call on a buffer that is refused as too small (the transfer
+            // then starts with the next buffer)
+            if rng.chance(1, 8) {
+                ops.push(submit(len, seed, pt, &lab, fid, rng.usize_in(0, 6 + l), &[]));
+            }
             let mut b0 = buf_size(rng, len, 13);
             if target == "C18" && rng.chance(1, 8) {
                 b0 = rng.usize_in(0, 70_000);
